@@ -645,3 +645,161 @@ def run(ctx) -> None:  # noqa: F811
                "homogeneous in kind")
     ctx.undecided("frequency grids built in units of cycles per pixel (fftfreq without a spacing) and rescaled later")
     deferred.run(ctx, lambda: _check_sampling_kind(ctx), _inner_run_c04_kind)
+
+
+# ---- added after the seeded change C04-r7seed0: pass band and roll-off of the aperture are cut on the same scale
+_inner_run_c04_band = run
+
+
+def _aperture_builders(repo):
+    from ..rules import apertureband as B
+
+    out = []
+    for f in repo.all_functions():
+        if not f.module.name.startswith("abtem"):
+            continue
+        keys = B.config_keys_read(f, "antialias.")
+        if keys:
+            out.append((f, keys))
+    return out
+
+
+def _check_aperture_band(ctx) -> None:
+    from ..rules import apertureband as B
+
+    repo = ctx.repo
+    anchor = repo.function(AA, "antialias_aperture")
+    builders = _aperture_builders(repo)
+    ctx.require(any(f is anchor or f.node is anchor.node for f, _ in builders),
+                f"{anchor.qualname} no longer reads the antialias.* configuration: the place where cutoff and taper "
+                "become frequency radii was not found")
+    n_bands = 0
+    for f, keys in builders:
+        rd = B.Reader(f)
+        facts, fkey = rd.facts()
+        ctx.require(bool(facts), f"{f.qualname} reads {sorted(set(keys))} but no comparison of a frequency radius with a "
+                    "bound was found in it")
+        rolls = rd.rolloffs(fkey)
+        grid_names = [p for p in f.params if p not in ("self", "cls")] + ["self"]
+
+        def grid_atoms(p: Poly):
+            return sorted({a for a in p.atoms() if any(B.mentions(a, g) for g in grid_names)
+                           and not a.startswith("config.get(")})
+
+        # ---- (b1) constants of the mask: 0 only above a bound, 1 only below one
+        stops, passes = [], []
+        for i, fc in enumerate(facts):
+            cons = f"{f.qualname}:{fc.how}#{i + 1}"
+            if fc.value == 0 and fc.region == "above":
+                stops.append(fc)
+            elif fc.value == 1 and fc.region == "below":
+                passes.append(fc)
+            else:
+                ctx.violation("R-APERTUREBAND", cons, f.loc(fc.node),
+                              f"the mask is set to {float(fc.value)} for every frequency {fc.region} {fc.bound.key()[:80]}: a "
+                              "low-pass aperture is exactly 1 below its pass bound and exactly 0 above its cutoff; any other "
+                              "constant there changes the intensity of a wave that lies inside the aperture",
+                              key_detail="constant")
+        ctx.require(bool(stops) and bool(passes), f"{f.qualname}: stop band or pass band of the mask not found")
+        # ---- (b2) one cutoff term
+        cut = stops[0].bound
+        same_cut = all(s.bound == cut for s in stops)
+        if not same_cut and B.undecidable(*[s.bound for s in stops]):
+            raise AnalysisError(f"{f.qualname}: cannot compare the stop bounds (inverse of a sum)")
+        ctx.check(same_cut, "R-APERTUREBAND", f"{f.qualname}:stop bound", f.loc(stops[0].node),
+                  f"every region set to 0 starts at the same cutoff term {cut.key()[:80]} ({len(stops)} stop test(s))",
+                  "the regions set to 0 start at different cutoff terms: " + " | ".join(sorted({s.bound.key()[:60] for s in stops}))
+                  + " — the tapered and the sharp form of the aperture (or the store and the roll-off) disagree about "
+                  "where the band ends", key_detail="cutoff")
+        if not cut.is_monomial():
+            raise AnalysisError(f"{f.qualname}: the cutoff term {cut.key()[:80]} is a sum; its scale cannot be compared")
+        # ---- pass bounds: the cutoff itself (sharp form) or cutoff - taper
+        tapers = []
+        for pf in passes:
+            if pf.bound == cut:
+                continue
+            t = cut - pf.bound
+            if not any(t == x for x, _ in tapers):
+                tapers.append((t, pf))
+        # ---- (b3) roll-off hits 1 at the pass bound and 0 at the cutoff
+        lows = []
+        for i, r in enumerate(rolls):
+            cons = f"{f.qualname}:roll-off#{i + 1}"
+            ainv = r.a.inverse()
+            lo = -(r.b * ainv)
+            hi = (B.pi_poly() - r.b) * ainv
+            lows.append(lo)
+            good_hi = hi == cut
+            good_lo = any(lo == pf.bound for pf in passes)
+            if not (good_hi and good_lo) and B.undecidable(lo, hi, cut, *[pf.bound for pf in passes]):
+                raise AnalysisError(f"{cons}: cannot compare the roll-off interval with the pass / stop bounds (inverse of a sum)")
+            ctx.check(good_hi and good_lo, "R-APERTUREBAND", cons, f.loc(r.call),
+                      f"cosine roll-off runs from argument 0 at {lo.key()[:60]} (a pass bound) to pi at {hi.key()[:60]} (the cutoff)",
+                      f"the cosine roll-off has argument 0 at radius {lo.key()[:70]} and pi at {hi.key()[:70]}, but the mask is "
+                      f"held at 1 up to {' | '.join(sorted({pf.bound.key()[:60] for pf in passes}))} and at 0 from {cut.key()[:60]}: "
+                      "the pass test, the stop test and the roll-off do not use the same cutoff / taper terms, so the mask "
+                      "jumps or is below 1 inside the band it must pass unchanged", key_detail="interval")
+            if r.value_ok is None:
+                raise AnalysisError(f"{cons}: the mask value built from the cosine is assembled in a way that is not read")
+            ctx.check(r.value_ok, "R-APERTUREBAND", f"{cons}:value", f.loc(r.call),
+                      f"mask value {r.value_text[:60]} is 1 where the cosine is 1 and 0 where it is -1",
+                      f"the mask value {r.value_text[:80]} is not 1 at cos = 1 / 0 at cos = -1: the aperture does not join the "
+                      "pass band (exactly 1) and the stop band (exactly 0) continuously", key_detail="value")
+        for t, pf in tapers:
+            cons = f"{f.qualname}:pass bound below the cutoff"
+            has = any(lo == pf.bound for lo in lows)
+            if not has and B.undecidable(pf.bound, *lows):
+                raise AnalysisError(f"{cons}: cannot match it with a roll-off (inverse of a sum)")
+            ctx.check(has, "R-APERTUREBAND", cons, f.loc(pf.node),
+                      "a roll-off starts at this pass bound",
+                      f"the mask is 1 up to {pf.bound.key()[:70]} and 0 from {cut.key()[:70]}, but no roll-off starts at that "
+                      "pass bound", key_detail="unmatched")
+            # ---- (a) the roll-off width is a configured fraction of the cutoff, whatever the grid
+            n_bands += 1
+            ratio = t * cut.inverse()
+            cons = f"{f.qualname}:taper/cutoff"
+            rv = ratio.const_value()
+            if rv is not None:
+                ctx.check(0 <= rv < 1, "R-APERTUREBAND", cons, f.loc(pf.node),
+                          f"roll-off width is {rv} of the cutoff",
+                          f"the roll-off width is {rv} times the cutoff for every configuration: the band passed unchanged "
+                          f"(up to cutoff - taper = {pf.bound.key()[:60]}) is empty, vacuum propagation attenuates every wave",
+                          key_detail="ratio")
+                continue
+            ga = grid_atoms(ratio)
+            foreign = sorted(a for a in ratio.atoms() if a not in ga and not a.startswith("config.get("))
+            if ga:
+                ctx.violation("R-APERTUREBAND", cons, f.loc(pf.node),
+                              f"cutoff = {cut.key()[:70]} and taper = {t.key()[:70]} are scaled by different reductions of the grid: "
+                              f"their ratio {ratio.key()[:90]} depends on {', '.join(ga)}.  The band limit of the wave (cutoff "
+                              "fraction of the Nyquist frequency of the coarsest axis) and the roll-off must be cut on the same "
+                              "frequency scale; with anisotropic sampling the roll-off here is wider by the ratio of the two "
+                              "samplings and reaches into the band that has to be passed unchanged — vacuum propagation of a "
+                              "band-limited wave loses intensity and propagating back does not restore it", key_detail="scale")
+                continue
+            if foreign or B.undecidable(ratio):
+                raise AnalysisError(f"{cons}: the ratio {ratio.key()[:90]} contains quantities that are neither configuration "
+                                    "values nor grid parameters")
+            ctx.ok("R-APERTUREBAND", cons, f.loc(pf.node),
+                   f"taper / cutoff = {ratio.key()[:80]}: configuration values only, the same grid reduction "
+                   f"({', '.join(grid_atoms(cut)) or 'none'}) scales both")
+    ctx.require(n_bands >= 1, "R-APERTUREBAND: no tapered aperture (pass bound below the cutoff) was examined")
+
+
+def run(ctx) -> None:  # noqa: F811
+    from ..rules import deferred
+
+    ctx.rule("R-APERTUREBAND", "piecewise reading of every function that turns the antialias.* configuration into a mask "
+             "over a frequency radius (enumerated: readers of antialias.* keys).  Comparisons of the radius with scalar "
+             "terms, masked stores, where() selections and the cosine argument are normalised to terms a·r + b over "
+             "reaching definitions (tuple unpacking and temporaries followed; max(sampling), min(sampling), sampling[k] "
+             "are distinct atoms).  Decided: (1) the mask is the constant 0 only above a bound and 1 only below one; "
+             "(2) every stop region starts at one cutoff term (tapered and sharp arm alike); (3) the cosine roll-off has "
+             "argument 0 at a pass bound and pi at the cutoff and the value built from it is 1 / 0 there, i.e. pass test, "
+             "stop test and roll-off use the same cutoff and taper terms; (4) taper / cutoff is free of grid quantities: "
+             "both radii come from the configuration through the SAME reduction of the sampling (and the ratio is < 1).  "
+             "The aperture multiplies every propagated wave; vacuum propagation preserves intensity and is reversible only "
+             "on the band where the mask is exactly 1, and that band is cutoff - taper on the frequency scale of the "
+             "coarsest axis: a taper cut on another scale widens the roll-off into that band for anisotropic sampling")
+    ctx.assume("grid samplings and configuration values are positive (sign of the factor of the radius in a comparison)")
+    deferred.run(ctx, lambda: _check_aperture_band(ctx), _inner_run_c04_band)
